@@ -51,6 +51,12 @@ def make_replayer():
                 'epigraph-objective': ['assembly'],
                 'epigraph-variable': ['assembly'],
                 'epigraph-constraints': ['assembly'],
+                'expansion-constraints': ['assembly'],
+                'expansion-variable': ['assembly'],
+                'expansion-objective': ['assembly'],
+                'expansion-frame': ['assembly'],
+                'expansion-loops': ['assembly'],
+                'expansion-refuses': ['assembly'],
                 'solve-propagation': ['propagation']}.get(ob.kind, [])
         hits = {k: v for k, v in bat.result.items() if k in want}
         info = {'rerun': {'battery': 'lp', 'oracles': want},
@@ -76,9 +82,18 @@ def run(report, tier, seed):
     except KeyError as e:
         report.error('function under contract no longer exists: %s' % e)
         oobs = []
-    for o in oobs:
+    from contracts.py import aslinearineq_spec
+    try:
+        aobs = aslinearineq_spec.obligations(10000 if tier == 'quick'
+                                             else 60000)
+        if 'modeling.py:constraint._aslinearineq' not in report.functions:
+            report.functions.append('modeling.py:constraint._aslinearineq')
+    except KeyError as e:
+        report.error('function under contract no longer exists: %s' % e)
+        aobs = []
+    for o in oobs + aobs:
         report.add(Ob(o['id'], o['kind'], o['status'], o['text'],
-                      'modeling.py op._inmatrixform line %s' % o['line'],
+                      'modeling.py line %s' % o['line'],
                       by=o['by'], detail=o.get('detail'),
                       meta={'line': o['line']}))
     report.replayer = make_replayer()
@@ -90,16 +105,17 @@ def run(report, tier, seed):
         'contract reads')
     report.floor = 20
     report.not_decided += [
-        'the epigraph expansion of piecewise-linear objectives and '
-        'constraints (constraint._aslinearineq); that the pieces summed '
-        'into mmap of a piecewise-linear constraint are the right ones '
-        '(pwl_ineqs is what _aslinearineq returned)',
+        'that pwl_ineqs[i] in _inmatrixform is the first list '
+        '_aslinearineq returned for i (one assignment, not under contract)',
         'optimality / duality of the values returned (the LP solve is '
         'numerical); agreement of dense / sparse / GLPK',
         'the objective vector c and the early "already in matrix form" '
         'return of _inmatrixform',
-        'the expansion of one constraint (constraint._aslinearineq) that '
-        'the objective conversion calls for every  g_j <= t_k']
+        'that the epigraph forms are equivalent to the constraint (the '
+        'mathematical fact  max_j g_j <= t  iff  g_j <= t for all j, and the '
+        'monotonicity argument for sums of epigraph variables): the '
+        'contracts state the documented forms, not their equivalence; '
+        'termination of the recursion of _aslinearineq']
     report.assumptions += [
         'coefficient shape rule of _lin (C11): the coefficient of a variable '
         'of length n in a function of length m has size (m, n), (1, n) or '
